@@ -34,6 +34,9 @@ func checkC05(c *Ctx, r *Report) {
 	r.rule("C05.BASE", "strconv.ParseInt / ParseUint in output coercers: base is the constant 10")
 	c04Base(c, r, "C05.BASE", "CoerceOut")
 	c05Repr(c, r)
+	if a := c.anchors(); len(a.missing) == 0 {
+		importRulesFrom(c, r, "C10", func(c *Ctx, sub *Report) { c10Field(c, sub, a) }, "C05.FDEF", "the declared type a leaf is coerced to is that of the field definition looked up in the container type of this evaluation (C10.FIELD): a definition remembered on the request node coerces the values of one union member with the declared type of another", "C10.FIELD")
+	}
 	finiteRule(c, r, "C05.FINITE")
 	c05Kind(c, r)
 	c05Enum(c, r)
